@@ -256,3 +256,176 @@ func Run(sources []string) ([]Transcript, error) {
 	wg.Wait()
 	return out, nil
 }
+
+// HostSource is the gc counterpart of the native package "host" that the multi-package
+// programs may import (see gen/gopkgs.HostPackage for the Scriggo side).
+const HostSource = `package host
+
+var Counter int
+
+const Name string = "host"
+const Seven int = 7
+const Size = 12
+
+type Pair struct {
+	A int
+	B string
+}
+
+func (p Pair) Sum() int { return p.A + len(p.B) }
+
+func Add(a, b int) int { return a + b }
+
+func Join(a, b string) string { return a + "+" + b }
+`
+
+func moduleKey(files map[string]string) string {
+	var names []string
+	for n := range files {
+		names = append(names, n)
+	}
+	sortStrings(names)
+	var b strings.Builder
+	b.WriteString("module/v1\x00")
+	for _, n := range names {
+		b.WriteString(n + "\x00" + files[n] + "\x00")
+	}
+	return b.String()
+}
+
+func sortStrings(a []string) {
+	for i := 1; i < len(a); i++ {
+		for j := i; j > 0 && a[j] < a[j-1]; j-- {
+			a[j], a[j-1] = a[j-1], a[j]
+		}
+	}
+}
+
+// RunModules returns the transcripts of programs made of several packages: each program is
+// a file set with a go.mod declaring "module m", a main.go and one directory per imported
+// package ("m/a" is a/a.go). Packages may import "host". Every program becomes its own
+// binary (package initialisation is part of the observed behaviour), all built by one go
+// command.
+func RunModules(progs []map[string]string) ([]Transcript, error) {
+	out := make([]Transcript, len(progs))
+	var missing []int
+	for i, p := range progs {
+		if t, ok := load(moduleKey(p)); ok {
+			out[i] = t
+			continue
+		}
+		missing = append(missing, i)
+	}
+	if len(missing) == 0 {
+		return out, nil
+	}
+	mu.Lock()
+	defer mu.Unlock()
+	dir, err := os.MkdirTemp("", "gcmod-*")
+	if err != nil {
+		return nil, err
+	}
+	defer os.RemoveAll(dir)
+	_ = os.WriteFile(filepath.Join(dir, "go.mod"), []byte("module gcbatch\n\ngo 1.25.0\n"), 0o644)
+	_ = os.MkdirAll(filepath.Join(dir, "host"), 0o755)
+	_ = os.WriteFile(filepath.Join(dir, "host", "host.go"), []byte(HostSource), 0o644)
+	args := []string{"build", "-o", "bin/"}
+	for n, i := range missing {
+		for name, src := range progs[i] {
+			if name == "go.mod" {
+				continue
+			}
+			src = strings.ReplaceAll(src, "\"m/", fmt.Sprintf("\"gcbatch/q%d/", n))
+			src = strings.ReplaceAll(src, "import \"host\"", "import \"gcbatch/host\"")
+			p := filepath.Join(dir, fmt.Sprintf("q%d", n), filepath.FromSlash(name))
+			_ = os.MkdirAll(filepath.Dir(p), 0o755)
+			if err := os.WriteFile(p, []byte(src), 0o644); err != nil {
+				return nil, err
+			}
+		}
+		args = append(args, fmt.Sprintf("./q%d", n))
+	}
+	_ = os.MkdirAll(filepath.Join(dir, "bin"), 0o755)
+	build := exec.Command(goBin, args...)
+	build.Dir = dir
+	build.Env = goEnv()
+	if b, err := build.CombinedOutput(); err != nil {
+		msg := string(b)
+		bad := map[int]string{}
+		for n := range missing {
+			for _, tag := range []string{fmt.Sprintf("q%d/", n), fmt.Sprintf("gcbatch/q%d\n", n), fmt.Sprintf("gcbatch/q%d/", n)} {
+				if k := strings.Index(msg, tag); k >= 0 {
+					ls := strings.LastIndexByte(msg[:k], '\n') + 1
+					bad[n] = firstLine(msg[ls:])
+					break
+				}
+			}
+		}
+		if len(bad) == 0 {
+			return nil, fmt.Errorf("gc module batch build failed: %s", msg)
+		}
+		var rest []map[string]string
+		var restIdx []int
+		for n, i := range missing {
+			if e, ok := bad[n]; ok {
+				// the go command stops listing errors after a few packages: a program is
+				// only charged with an error that names it
+				out[i] = Transcript{BuildErr: e}
+				store(moduleKey(progs[i]), out[i])
+			} else {
+				rest = append(rest, progs[i])
+				restIdx = append(restIdx, i)
+			}
+		}
+		mu.Unlock()
+		ts, err := RunModules(rest)
+		mu.Lock()
+		if err != nil {
+			return nil, err
+		}
+		for k, i := range restIdx {
+			out[i] = ts[k]
+		}
+		return out, nil
+	}
+	var wg sync.WaitGroup
+	sem := make(chan struct{}, 12)
+	for n, i := range missing {
+		wg.Add(1)
+		sem <- struct{}{}
+		go func(n, i int) {
+			defer wg.Done()
+			defer func() { <-sem }()
+			cmd := exec.Command(filepath.Join(dir, "bin", fmt.Sprintf("q%d", n)))
+			cmd.Env = append(os.Environ(), "GOTRACEBACK=single")
+			var stderr bytes.Buffer
+			cmd.Stderr = &stderr
+			done := make(chan error, 1)
+			if err := cmd.Start(); err != nil {
+				out[i] = Transcript{Fatal: "cannot start: " + err.Error()}
+				return
+			}
+			go func() { done <- cmd.Wait() }()
+			var t Transcript
+			select {
+			case err := <-done:
+				exit := 0
+				if err != nil {
+					if ee, ok := err.(*exec.ExitError); ok {
+						exit = ee.ExitCode()
+					} else {
+						exit = -1
+					}
+				}
+				t = parse(stderr.String(), exit)
+			case <-time.After(20 * time.Second):
+				_ = cmd.Process.Kill()
+				t = Transcript{Fatal: "timeout"}
+			}
+			out[i] = t
+			store(moduleKey(progs[i]), t)
+		}(n, i)
+	}
+	wg.Wait()
+	return out, nil
+}
